@@ -353,6 +353,30 @@ def check_model(model, order_name, names_in_order, classes, sample):
                      f"{[(before_q[k], after_q.get(k)) for k in diff[:1]]}", inp)
             before_q = after_q
         rep.case(("op", name), sample=None)
+    # reading the DERIVED views must not change what the original answers either (shared caches)
+    for name, sub in subs:
+        st, _ = guarded(lambda: [(sub.get_out_edges(w), list(sub.get_outgoing_relations(w.clazz)), sub.parent_map, sub.all_ancestors(w.index),
+                                  sub.get_role_taker_associations_of_cls(w), sub.get_assoc_keys_by_source(True), sub.associations) for w in sub.wrapped_classes])
+        st1, after_q = guarded(lambda: observe_queries(d))
+        if st0 == "ok" and st1 == "ok" and after_q != before_q:
+            diff = [k for k in before_q if before_q[k] != after_q.get(k)]
+            rep.fail("frame::answers-change::reading-the-derived-view", f"after reading {name}'s result the ORIGINAL diagram answers {diff[:3]} differently", inp)
+            before_q = after_q
+        if snapshot(d) != before or observed_edges(d) != before_edges:
+            rep.fail("frame::reading-the-derived-view", f"reading {name}'s result changed the original diagram", inp)
+    # a FRESH diagram whose derived view is read before the original: the original's answers must still describe its own graph
+    st, d2 = guarded(lambda: ClassDiagram([classes[n] for n in names_in_order]))
+    if st == "ok":
+        st, _ = guarded(lambda: [[(s2.get_out_edges(w), list(s2.get_outgoing_relations(w.clazz)), s2.get_role_taker_associations_of_cls(w)) for w in s2.wrapped_classes]
+                                 for s2 in (d2.to_subdiagram_without_inherited_associations(True), d2.to_subdiagram_without_inherited_associations(False))])
+        g2 = d2._dependency_graph
+        for w in d2.wrapped_classes:
+            st, got = guarded(lambda: sorted(id(e) for e in d2.get_out_edges(w)))
+            want = sorted(id(e) for _, _, e in g2.out_edges(w.index))
+            if st == "ok" and got != want:
+                rep.fail("frame::answers-change::original-after-reading-a-derived-view-first",
+                         f"get_out_edges({w.clazz.__name__}) of the original lists {len(got)} relations, its graph has {len(want)} (a derived view was read first)", inp)
+                break
     # The CONTENT of the derived view is not part of C17 (only that the source diagram stays intact); with parallel edges
     # between two classes the derived view is in fact unreliable (edge_list()/get_edge_data(u, v) see one of them) - noted in
     # DESIGN.md, not checked here.
